@@ -10,6 +10,11 @@ E3 = "E3 cooperative scheduler + preemption-bounded DFS (harness/vsched, harness
 
 # id -> (level, engine, technique, text, note, design_ref)
 CHECKS = {
+    "C01": ("exploration", E2,
+            "bounded-exhaustive enumeration of filter atoms and compositions x all field assignments over tiny domains; differential against an independent reference evaluator on real bolt stores",
+            "Every (symbol kind x operator x literal) atom the grammar and typer admit - scalars of all five types, any-typed map element, fk, dotted one/two-hop symbols, anyOf/allOf/count/isEmpty over direct (seekable), dotted (scanned) and link sets, sub-queries - and all 2-atom (thorough: 3-atom) compositions are evaluated on ALL assignments of the mentioned fields; QueryIds, QueryIdsC and IterateIds must each return exactly the ids the reference evaluator selects.",
+            "Domains: 3-7 values per field incl. null/empty, 2 entities (3 for single-field families in thorough). Rows whose answer the documentation does not settle (any-typed value of a type the literal cannot read, bool/time-to-string, count over null elements) are skipped and counted. Mixed and/or always parenthesised (C12).",
+            "DESIGN.md §4 C01"),
     "C03": ("model_checking", E1,
             "explicit-state BFS to closure over real stores; every state x every transaction program vs reference model (complete database image + API reads)",
             "All reachable canonical database images of the unique/set index scenario are enumerated to closure; on every transition the outcome class and the complete bucket image are compared with a reference model, so index buckets are checked byte-for-byte against entity-derived state.",
